@@ -52,6 +52,14 @@ def configs(tier):
                             out.append({'kind': 'call', 'n': n, 'm': m, 'nreq': nreq, 'cnt': cnt,
                                         'chunks': chunks, 'subset': subset,
                                         'tdtype': 'uint64' if (n + m) % 2 else 'int64'})
+    # a subset array that lists an id twice
+    for n in (2, 3):
+        for nreq in (1, 2):
+            for chunks in (False, True):
+                if n == 3 and (chunks or nreq > 1) and quick:
+                    continue
+                out.append({'kind': 'call', 'n': n, 'm': 2 if not chunks else 3, 'nreq': nreq, 'cnt': 'sym' if n == 2 else 'none',
+                            'chunks': chunks, 'subset': 'dup', 'tdtype': 'int64'})
     # two calls on one selector (a per-cluster cache must not leak the first call's restriction)
     for n in (1, 2):
         for f1, f2 in ((True, False), (False, True)):
@@ -129,12 +137,15 @@ def run_config(cfg, e):
         e.case_builder = lambda ev: {'kind': kind, 'grid': ev(grid), 'k': ev(k), 'ts': ev(ts), 'cl': ev(cl),
                                      'req': ev(req), 'cnt': None if cnt is None else ev(cnt),
                                      'chunks': cfg['chunks'], 'tdtype': cfg['tdtype'], 'first_flag': cfg.get('first_flag'),
-                                     'subset': None if subsel is None else [i for i in range(n) if ev(subsel[i])]}
+                                     'subset': None if subsel is None else (lambda c: c + c[:1] if cfg['subset'] == 'dup' else c)(
+                                         [i for i in range(n) if ev(subsel[i])])}
         times = snp.ndarray(snp._fromlist(ts, (n,)), cfg['tdtype'])
         clusters = snp.ndarray(snp._fromlist(cl, (n,)), 'int32')
         try:
             if subsel is not None:
                 chosen = [i for i in range(n) if bool(subsel[i])]
+                if cfg['subset'] == 'dup':
+                    chosen = chosen + chosen[:1]      # a subset array may list an id twice
                 sub = snp.asarray(np.array(chosen, dtype=np.int64))
             spt = arr._spikes_per_cluster(clusters)
             ss = arr.SpikeSelector(
